@@ -9,7 +9,7 @@ SRC=/tmp/mut; W=/tmp/chk/$NAME; OUT=/verif/seeded/$NAME
 mkdir -p $OUT; rm -rf $W; git -C /repo worktree prune
 git -C /repo worktree add -q --detach $W HEAD || exit 2
 cp $SRC/$NAME.patch.diff $OUT/patch.diff; cp $SRC/$NAME.demo.cpp $OUT/demo.cpp
-DEMOFLAGS="-std=c++17 -O2 -march=native -fopenmp -w"
+DEMOFLAGS="-std=c++17 -O2 -march=native -fopenmp -w -fno-access-control"
 EXTRA=""; grep -q "cpgm.h" $OUT/demo.cpp && EXTRA="c-interface/cpgm.cpp"
 # clean demo
 ( cd $W && g++ $DEMOFLAGS -Iinclude -Ic-interface $OUT/demo.cpp $EXTRA -o $W/demo_clean -lpthread ) > $OUT/.log 2>&1
